@@ -15,6 +15,7 @@ import (
 	baseapi "github.com/regen-network/regen-ledger/api/v2/regen/ecocredit/v1"
 	"github.com/regen-network/regen-ledger/x/ecocredit/v3/base"
 	basetypes "github.com/regen-network/regen-ledger/x/ecocredit/v3/base/types/v1"
+	baskettypes "github.com/regen-network/regen-ledger/x/ecocredit/v3/basket/types/v1"
 
 	"verifharness/chain"
 	"verifharness/eng"
@@ -29,6 +30,7 @@ func (g *Gen) registerBase() {
 	g.add("add_credit_type", g.genAddCreditType)
 	g.add("create_class", g.genCreateClass)
 	g.add("class_combo", g.genClassCombo)
+	g.add("creator_combo", g.genCreatorCombo)
 	g.add("prefix_project", g.genPrefixProject)
 	g.add("create_project", g.genCreateProject)
 	g.add("create_batch", g.genCreateBatch)
@@ -174,9 +176,25 @@ func (g *Gen) genClassCombo() *eng.Tx {
 		&basetypes.MsgCreateProject{Admin: admin, ClassId: classID, Metadata: "combo", Jurisdiction: "US", ReferenceId: fmt.Sprintf("CMB-%d", g.refSeq)},
 	}
 	if g.chance(0.5) {
+		// a basket that allows the new class, created in the same transaction; after the revert neither the
+		// class nor the basket exists, and a basket naming the vanished class id must be refused
+		basketMsg := func(name string) *baskettypes.MsgCreate {
+			m := &baskettypes.MsgCreate{Curator: admin, Name: name, Description: "combo", CreditTypeAbbrev: ab, AllowedClasses: []string{classID}}
+			if g.V.BasketFee != nil && g.V.BasketFee.Fee != nil {
+				if f := storedFee(g.V.BasketFee.Fee); f != nil {
+					m.Fee = sdk.Coins{*f}
+				}
+			}
+			return m
+		}
+		bn := fmt.Sprintf("CB%d", g.refSeq%100000)
+		msgs = append(msgs, basketMsg(bn))
 		msgs = append(msgs, &basetypes.MsgCreateProject{Admin: admin, ClassId: ab + "999999", Metadata: "x", Jurisdiction: "US"}) // unknown class: fails, reverting the transaction
 		ref1, ref2 := fmt.Sprintf("CMB-%da", g.refSeq), fmt.Sprintf("CMB-%db", g.refSeq)
 		g.script = append(g.script,
+			func() *eng.Tx {
+				return &eng.Tx{Msgs: []sdk.Msg{basketMsg(bn + "x")}, Tag: "class_combo/basket-of-vanished-class"}
+			},
 			func() *eng.Tx {
 				return &eng.Tx{Msgs: []sdk.Msg{&basetypes.MsgCreateClass{Admin: other, Issuers: []string{other}, Metadata: "combo-2", CreditTypeAbbrev: ab, Fee: fee()}}, Tag: "class_combo/recreate"}
 			},
@@ -995,7 +1013,10 @@ func (g *Gen) genClassCreator() *eng.Tx {
 	return tx(&basetypes.MsgRemoveClassCreator{Authority: g.govSigner(), Creator: c})
 }
 
-func (g *Gen) feeValue() *sdk.Coin {
+// feeValue draws a fee for a governance fee update. cur is the fee currently stored (nil if none): a
+// third of the random draws keep the stored AMOUNT and change only the denom, another third keep the
+// denom and change only the amount — an update that differs from the stored value in one component only.
+func (g *Gen) feeValue(cur *sdk.Coin) *sdk.Coin {
 	switch g.R.Intn(6) {
 	case 0:
 		return nil
@@ -1010,11 +1031,91 @@ func (g *Gen) feeValue() *sdk.Coin {
 		return &c
 	}
 	c := sdk.Coin{Denom: g.bankDenom(), Amount: sdk.NewInt(int64(1 + g.R.Intn(5000000)))}
+	if cur != nil && cur.Amount.IsPositive() {
+		switch c.Amount.Int64() % 3 {
+		case 0:
+			c.Amount = cur.Amount
+			if c.Denom == cur.Denom {
+				for i, d := range BankDenoms {
+					if d == cur.Denom {
+						c.Denom = BankDenoms[(i+1)%len(BankDenoms)]
+					}
+				}
+			}
+		case 1:
+			c.Denom = cur.Denom
+		}
+	}
 	return &c
 }
 
+func storedFee(c interface {
+	GetDenom() string
+	GetAmount() string
+}) *sdk.Coin {
+	d, a := apiCoin(c)
+	if a == nil || a.Sign() <= 0 || d == "" {
+		return nil
+	}
+	r := sdk.Coin{Denom: d, Amount: sdk.NewIntFromBigInt(a)}
+	return &r
+}
+
 func (g *Gen) genClassFee() *eng.Tx {
-	return tx(&basetypes.MsgUpdateClassFee{Authority: g.govSigner(), Fee: g.feeValue()})
+	var cur *sdk.Coin
+	if g.V.ClassFee != nil && g.V.ClassFee.Fee != nil {
+		cur = storedFee(g.V.ClassFee.Fee)
+	}
+	return tx(&basetypes.MsgUpdateClassFee{Authority: g.govSigner(), Fee: g.feeValue(cur)})
+}
+
+// genCreatorCombo: the class-creator role through its whole life in consecutive transactions — the
+// allowlist is switched on, X is put on it (half of the time first inside a transaction that a later
+// message reverts, after which X must still be refused), X creates a class, governance removes X, X
+// tries again (must be refused: a former role holder), then X is re-added or the allowlist is switched
+// off and X creates once more.
+func (g *Gen) genCreatorCombo() *eng.Tx {
+	if len(g.V.ClassList) >= g.P.MaxClasses+8 {
+		return nil
+	}
+	x := g.actor()
+	gov := g.Gov
+	fee := func() *sdk.Coin {
+		if g.V.ClassFee != nil && g.V.ClassFee.Fee != nil {
+			return storedFee(g.V.ClassFee.Fee)
+		}
+		return nil
+	}
+	create := func(tag string) func() *eng.Tx {
+		return func() *eng.Tx {
+			return &eng.Tx{Msgs: []sdk.Msg{&basetypes.MsgCreateClass{Admin: x, Issuers: []string{x}, Metadata: "creator-combo", CreditTypeAbbrev: "C", Fee: fee()}}, Tag: tag}
+		}
+	}
+	one := func(tag string, m sdk.Msg) func() *eng.Tx {
+		return func() *eng.Tx { return &eng.Tx{Msgs: []sdk.Msg{m}, Tag: tag} }
+	}
+	if g.chance(0.5) {
+		g.script = append(g.script,
+			func() *eng.Tx {
+				return &eng.Tx{Msgs: []sdk.Msg{
+					&basetypes.MsgAddClassCreator{Authority: gov, Creator: x},
+					&basetypes.MsgCreateClass{Admin: x, Issuers: []string{x}, Metadata: "creator-combo", CreditTypeAbbrev: "C", Fee: fee()},
+					&basetypes.MsgCreateProject{Admin: x, ClassId: "C999999", Metadata: "x", Jurisdiction: "US"}, // unknown class: reverts the transaction
+				}, Tag: "creator_combo/reverted-add"}
+			},
+			create("creator_combo/after-reverted-add"))
+	}
+	g.script = append(g.script,
+		one("creator_combo/add", &basetypes.MsgAddClassCreator{Authority: gov, Creator: x}),
+		create("creator_combo/listed"),
+		one("creator_combo/remove", &basetypes.MsgRemoveClassCreator{Authority: gov, Creator: x}),
+		create("creator_combo/former"))
+	if g.chance(0.5) {
+		g.script = append(g.script, one("creator_combo/re-add", &basetypes.MsgAddClassCreator{Authority: gov, Creator: x}), create("creator_combo/listed-again"))
+	} else {
+		g.script = append(g.script, one("creator_combo/off", &basetypes.MsgSetClassCreatorAllowlist{Authority: gov, Enabled: false}), create("creator_combo/list-off"))
+	}
+	return &eng.Tx{Msgs: []sdk.Msg{&basetypes.MsgSetClassCreatorAllowlist{Authority: gov, Enabled: true}}, Tag: "creator_combo"}
 }
 
 func (g *Gen) genBridgeChain() *eng.Tx {
